@@ -175,6 +175,9 @@ namespace plan
     int super = -1;
     int super2 = -1;                  // a second base class (only among classes without fields or parameters)
     std::vector<std::string> rfields; // own real fields
+    std::vector<int> rfield_mode;     // per own real field: 0 set by the constructor's initialiser list only; 1 `real f = d;` AND a list entry (the list wins); 2 `real f = d;` only (no constructor parameter)
+    mpq_class rfield_default(size_t i) const { return mpq_class(41 + 2 * static_cast<long>(i)); }
+    int rmode(size_t i) const { return i < rfield_mode.size() ? rfield_mode[i] : 0; }
     int ofield_class = -1;            // own object field "g" of that class (or -1)
     bool ofield_twice = false;        // a second own object field "h" of the same class
     bool is_sv = false;
@@ -293,6 +296,14 @@ namespace plan
       all_rfields(classes[c].super, out);
       for (auto &f : classes[c].rfields)
         out.push_back(f);
+    }
+    void all_rfield_owners(int c, std::vector<std::pair<int, size_t>> &out) const
+    {
+      if (c < 0)
+        return;
+      all_rfield_owners(classes[c].super, out);
+      for (size_t i = 0; i < classes[c].rfields.size(); ++i)
+        out.push_back({c, i});
     }
     void all_ofields(int c, std::vector<std::pair<std::string, int>> &out) const
     {
